@@ -20,6 +20,14 @@ def mirror_aircraft(ac):
     return m
 
 
+def rename_wings(ac):
+    """wing names are the user's: they may well contain the words the code uses for the two sides"""
+    ren = {"main_wing": "port_left_main", "h_stab": "bright_tail", "outer": "upright_outer", "winglet": "left_right_winglet", "v_stab": "fin_left",
+           "canard": "canard_right_fore"}
+    ac["wings"] = {ren.get(k, k): v for k, v in ac["wings"].items()}
+    return ac
+
+
 def mirror_state(st):
     m = copy.deepcopy(st)
     if isinstance(st["velocity"], list):
@@ -124,6 +132,16 @@ def run(chk):
             continue
         sides = ("both",) if kind == "symmetric" else ("both", "left", "right")
         ac = gen.gen_aircraft(rng, chk.hist, max_wings=3, sides=sides, allow_fin=(kind != "symmetric"), qc_points_p=0.2)
+        if it % 3 == 1:
+            ac = rename_wings(ac)
+            chk.count("wing-names-with-side-words")
+        if it == 1:
+            # a right-hand chain whose names contain "_left", whatever was drawn
+            af_ = next(iter(ac["airfoils"]))
+            ac["wings"] = {"port_left_inner": {"ID": 1, "side": "right", "is_main": True, "semispan": 3.0, "chord": 1.0, "sweep": 20.0, "airfoil": af_, "grid": {"N": 4}},
+                           "port_left_outer": {"ID": 2, "side": "right", "is_main": True, "semispan": 1.0, "chord": 0.8, "sweep": 20.0, "dihedral": 20.0, "airfoil": af_,
+                                               "connect_to": {"ID": 1, "location": "tip"}, "grid": {"N": 3}}}
+            ac["controls"] = {}
         if kind == "symmetric":
             ac["CG"][1] = 0.0
             for w in ac["wings"].values():
